@@ -989,3 +989,109 @@ def _first_byte_diff(a, b):
         if x != y:
             return i
     return min(len(a), len(b))
+
+
+# ---------------------------------------------------------------------------------- C09
+from decimal import Decimal, InvalidOperation
+
+
+def _num_eq(a, b):
+    if a == b:
+        return True
+    try:
+        return Decimal(a.strip()) == Decimal(b.strip())
+    except (InvalidOperation, ValueError):
+        return False
+
+
+def infoset_loss(inp, out, path=''):
+    """First element / attribute / text / tail of the input infoset that the output lacks or alters.
+    Whitespace around text is insignificant; numbers are compared by value."""
+    here = path + '/' + inp.tag
+    if inp.tag != out.tag:
+        return ('element-dropped', {'at': here, 'output_has': out.tag})
+    for k, v in inp.attrib.items():
+        if k not in out.attrib:
+            return ('attribute-dropped', {'at': here, 'attribute': k})
+        if not _num_eq(v, out.attrib[k]):
+            return ('value-altered', {'at': here, 'attribute': k, 'input': v[:60], 'output': out.attrib[k][:60]})
+    ti, to = (inp.text or '').strip(), (out.text or '').strip()
+    if ti and not to:
+        return ('text-dropped', {'at': here, 'text': ti[:60]})
+    if ti and not _num_eq(ti, to):
+        return ('value-altered', {'at': here, 'input': ti[:60], 'output': to[:60]})
+    ki, ko = list(inp), list(out)
+    if [k.tag for k in ki] != [k.tag for k in ko]:
+        si, so = sorted(k.tag for k in ki), sorted(k.tag for k in ko)
+        if si == so:
+            return ('order-altered', {'at': here, 'input': [k.tag for k in ki][:12], 'output': [k.tag for k in ko][:12]})
+        missing = [t for t in si if si.count(t) > so.count(t)]
+        if missing:
+            return ('element-dropped', {'at': here, 'element': missing[0]})
+        return ('order-altered', {'at': here, 'input': [k.tag for k in ki][:12], 'output': [k.tag for k in ko][:12]})
+    for a, b in zip(ki, ko):
+        tl = (a.tail or '').strip()
+        if tl and tl != (b.tail or '').strip():
+            return ('tail-dropped', {'at': here + '/' + a.tag, 'tail': tl[:60]})
+        r = infoset_loss(a, b, here)
+        if r:
+            return r
+    return None
+
+
+class C09Parse(Checker):
+    """If the stored bytes are not well-formed the parser must raise; otherwise either it raises or the
+    infoset of parse(...).to_string() contains every element, attribute and text of the input; in the
+    fault-free configuration with a document the model vouches for, it must not raise at all."""
+
+    def after(self, w, op, ev):
+        if op['op'] != 'PARSE' or ev['r'] == 'skip':
+            return
+        from .simfs import MOUNT
+        data = w.fs.files.get(MOUNT + op['path'])
+        if data is None:
+            return
+        try:
+            inp = ET.fromstring(data)
+        except ET.ParseError:
+            inp = None
+        except Exception:
+            inp = None
+        valid_clean = bool(op.get('valid')) and not op.get('corrupted')
+        w.count('c09.parses_judged')
+        if inp is None:
+            w.count('c09.input_not_wellformed')
+            if ev['r'] == 'ok':
+                w.violate('C09', 'not-wellformed-accepted', {})
+            return
+        if op.get('corrupted'):
+            w.count('c09.corrupted_still_wellformed')
+        if ev['r'] == 'exc':
+            if valid_clean:
+                w.violate('C09', 'valid-file-rejected', {'exc': ev['t'], 'writer': op.get('writer'), 'why': _why(w.last_exc)})
+            else:
+                w.count('c09.parser_raised_on_damaged_input')
+            return
+        root = w.docs.get(op['doc'])
+        ts = infork(lambda: w._quiet(lambda: w.verdict(root.el)))
+        if ts[0] != 'text':
+            if valid_clean:
+                w.violate('C09', 'valid-file-rejected', {'exc': ts[1], 'stage': 'to_string of the parsed tree', 'writer': op.get('writer'),
+                                                         'required': ts[2] if len(ts) > 2 else None})
+            return
+        try:
+            out = ET.fromstring(ts[1])
+        except ET.ParseError:
+            return      # C16's business
+        r = infoset_loss(inp, out)
+        w.count('c09.roundtrips_compared')
+        if r:
+            d = dict(r[1])
+            d['writer'] = op.get('writer')
+            d['corrupted'] = bool(op.get('corrupted'))
+            w.violate('C09', r[0], d)
+
+
+def _why(e):
+    s = scrub(str(e))[:160] if e is not None else None
+    return s
